@@ -1,6 +1,8 @@
 import ScVerif.Base.Line
 import ScVerif.C16.Tolerance
 import ScVerif.C16.Pull
+import ScVerif.C16.Merge
+import ScVerif.C16.WireLemmas
 import ScVerif.C16.FloatIEEE
 /-!
 Driver handler for C16.  Parsing/printing glue only (trusted base of the correspondence check).
@@ -8,9 +10,8 @@ Driver handler for C16.  Parsing/printing glue only (trusted base of the corresp
 Tree token (no spaces, atoms separated by `,`, prefix notation):
 ```
 val   ::= b0 | b1 | e<int> | i<int> | u<nat> | f<F> | s<hex> | y<hex>
-        | M<0|1>,<type>,<nfields>,field*,<nunknown>,unk*
+        | M<0|1>,<type>,<nfields>,field*,X<hex of the raw unknown bytes>
 field ::= S<num>:<name>,val | L<num>:<name>,<n>,val* | P<num>:<name>,<n>,(val,val)*
-unk   ::= <fnum>:<hex>
 F     ::= n | pi | mi | nz | <int>/<k>            (int / 2^k)
 top   ::= nil | val
 ```
@@ -54,10 +55,27 @@ def parseFD? (s : String) : Option FD :=
   | [a, b] => (parseNat? a).map (fun n => ⟨n, b⟩)
   | _ => none
 
-def parseUnk? (s : String) : Option (Nat × String) :=
-  match s.splitOn ":" with
-  | [a, b] => (parseNat? a).map (fun n => (n, b))
+def hexDigit? (c : Char) : Option Nat :=
+  if '0' ≤ c ∧ c ≤ '9' then some (c.toNat - '0'.toNat)
+  else if 'a' ≤ c ∧ c ≤ 'f' then some (c.toNat - 'a'.toNat + 10)
+  else none
+
+def parseHex? : List Char → Option Bytes
+  | [] => some []
+  | a :: b :: rest => do
+    let h ← hexDigit? a
+    let l ← hexDigit? b
+    let more ← parseHex? rest
+    pure (UInt8.ofNat (16 * h + l) :: more)
   | _ => none
+
+/-- The unknown fields of a message: `X<hex>`, the RAW bytes; the records are cut here, by the model of
+`protowire.ConsumeField` (bytes that do not parse are outside the model: the request is refused). -/
+def parseUnk? (s : String) : Option Unk :=
+  if s.front = 'X' then do
+    let b ← parseHex? ((s.drop 1).toString.toList)
+    wireRecords b
+  else none
 
 mutual
   partial def parseVal (atoms : List String) : Option (Val × List String) :=
@@ -70,11 +88,9 @@ mutual
           let n ← parseNat? n
           let (fs, rest) ← parseFields n rest
           match rest with
-          | m :: rest => do
-            let m ← parseNat? m
-            if rest.length < m then none
-            let us ← (rest.take m).mapM parseUnk?
-            pure (.msg ty (a = "M1") (Fields.ofList fs) us, rest.drop m)
+          | u :: rest => do
+            let us ← parseUnk? u
+            pure (.msg ty (a = "M1") (Fields.ofList fs) us, rest)
           | [] => none
         | _ => none
       else (parseScalar? a).map (fun s => (.sc s, rest))
@@ -208,6 +224,32 @@ def pairUp : List Top → Option (List CEvent)
   | a :: b :: rest => (pairUp rest).map (fun r => ⟨a, b⟩ :: r)
   | _ => none
 
+/-! `cmerge <mspec> <filter> (<id> <A|U|R> <old> <new>)*`: one parked window of a lossy `Collection.Pull`.
+Values are tagged with their position in the request (old of event k: 2k, new: 2k+1) so that the answer
+names WHICH values the delivered change carries: `q=<id>:<TYPE>:<old pos|->:<new pos|->,...`. -/
+def parseCT? (s : String) : Option CT :=
+  if s = "A" then some .add else if s = "U" then some .update else if s = "R" then some .remove else none
+
+def showCT : CT → String
+  | .unspecified => "UNSPECIFIED" | .add => "ADD" | .update => "UPDATE" | .remove => "REMOVE" | .replace => "REPLACE"
+
+def parseChgs (k : Nat) : List String → Option (List (Chg (Val × Nat)))
+  | [] => some []
+  | id :: ct :: o :: n :: rest => do
+    let ct ← parseCT? ct
+    let o ← parseTop? o
+    let n ← parseTop? n
+    let more ← parseChgs (k + 1) rest
+    pure (⟨id, ct, o.map (fun v => (v, 2 * k)), n.map (fun v => (v, 2 * k + 1))⟩ :: more)
+  | _ => none
+
+def showPos : Option (Val × Nat) → String
+  | some (_, k) => toString k
+  | none => "-"
+
+def showChg (c : Chg (Val × Nat)) : String :=
+  c.id ++ ":" ++ showCT c.ct ++ ":" ++ showPos c.old ++ ":" ++ showPos c.new
+
 def handle? (toks : List String) : Option String :=
   match toks with
   | ["cmp", m, x, y] => do
@@ -234,6 +276,25 @@ def handle? (toks : List String) : Option String :=
     let tops ← evs.mapM parseTop?
     let ces ← pairUp tops
     pure ("d=" ++ String.join ((collPullLoopI e flt inc ces).map showDec))
+  | ["wire", h] => do
+    let b ← parseHex? h.toList
+    match wireRecords b with
+    | some rs => pure ("r=" ++ ",".intercalate (rs.map (fun r => toString r.1 ++ ":" ++ toString r.2.length)))
+    | none => pure "malformed"
+  | ["wire"] => pure "r="
+  | ["unk", hx, hy] => do
+    let x ← parseHex? hx.toList
+    let y ← parseHex? hy.toList
+    match eqUnknownRaw x y with
+    | some r => pure (showBool r)
+    | none => pure "malformed"
+  | "cmerge" :: m :: f :: evs => do
+    let e ← parseOptMSpec? m
+    let flt ← parseFilter? f
+    let chgs ← parseChgs 0 evs
+    let e' : Option (Option (Val × Nat) → Option (Val × Nat) → Bool) :=
+      e.map (fun e a b => e (a.map Prod.fst) (b.map Prod.fst))
+    pure ("q=" ++ ",".intercalate ((lossyWindow e' (fun p => (flt p.1, p.2)) chgs).map showChg))
   | _ => none
 
 def handle (toks : List String) : String :=
